@@ -368,12 +368,14 @@ func (ab *rulesPair) equalizeGroups(ra, rb *nsxRule) []change {
 		// - O the old number of elements
 		// - N the new number of elements
 		// N = O - D + I
-		// If number to delete exeeds number of remaining elements send complete list instead
+		// If number to delete exeeds number of remaining elements send complete list instead.
+		// Also if all old elements would be removed,
+		// because an expression must not become empty.
 		d := len(toRemove)
 		i := len(toAdd)
 		o := len(ga.Expression[0].IPAddresses)
 		n := o - d + i
-		if n < d {
+		if n < d || d == o && d > 0 {
 			url := fmt.Sprintf("/policy/api/v1/infra/domains/default/groups/%s/ip-address-expressions/%s",
 				ga.Id, ga.Expression[0].Id)
 			gb.Expression[0].Id = ""
